@@ -24,7 +24,8 @@
 EXTENDS Naturals, Sequences, TLC
 
 \* I-layer variant: "code" = the filter as implemented; the others are deliberately broken filters
-\* used as oracle self-checks (TLC must refute them): "nosrc" skips the source comparison,
+\* used as oracle self-checks (TLC must refute them): "nosrc" skips the source comparison, "canon"
+\* compares canonicalised addresses (the v4 / v4-mapped twin of the peer passes),
 \* "alias" takes every 4-/16-byte address type for IPv4/IPv6, "nopath" skips the path-type test
 CONSTANT VARIANT
 
@@ -66,19 +67,22 @@ SrcIsPeer(d) ==
   \/ d.st = IPV4 /\ d.peer = "v4" /\ d.rel = "same"
   \/ d.st = IPV6 /\ d.peer \in {"v6", "v4mapped"} /\ d.rel = "same"
 
-\* the same IPv4 host written in the other representation: the property text does not say
-\* whether that is "equal"; it is never REQUIRED to be dispatched and never a violation if it is
+\* the same IPv4 host written in the OTHER family (peer a.b.c.d with an IPv6 source ::ffff:a.b.c.d, or a
+\* v4-mapped peer ::ffff:a.b.c.d with an IPv4 source a.b.c.d) is NOT the peer's address: the property demands
+\* equality with the tunnel peer's address of the same family (DESIGN.md 7/C08), so these cells may never be
+\* dispatched either
 SrcIsPeerMapped(d) == d.st \in {IPV4, IPV6} /\ d.rel = "mappedform"
 
 PathSupported(d) == d.pt \in {0, 1}
 
-MustNotDispatch(d) == ~(HeaderParses(d) /\ (SrcIsPeer(d) \/ SrcIsPeerMapped(d)) /\ PathSupported(d))
+MustNotDispatch(d) == ~(HeaderParses(d) /\ SrcIsPeer(d) /\ PathSupported(d))
 ShouldDispatch(d)  == HeaderParses(d) /\ SrcIsPeer(d) /\ PathSupported(d)
 
 \* ---------------------------------------------------------------- I-layer (shaped like the code)
 Decide(d) ==
   CASE ~HeaderParses(d) -> "Reply:InvalidCommonHeader"
     [] VARIANT = "code" /\ ~(d.st \in {IPV4, IPV6} /\ d.rel = "same") -> "Reply:InvalidSourceAddress"
+    [] VARIANT = "canon" /\ ~(d.st \in {IPV4, IPV6} /\ d.rel \in {"same", "mappedform"}) -> "Reply:InvalidSourceAddress"
     [] VARIANT = "alias" /\ ~(AddrLen(d.st) \in {4, 16} /\ d.rel = "same") -> "Reply:InvalidSourceAddress"
     [] VARIANT = "nopath" /\ ~(d.st \in {IPV4, IPV6} /\ d.rel = "same") -> "Reply:InvalidSourceAddress"
     [] VARIANT # "nopath" /\ ~PathSupported(d) -> "Reply:UnknownPathType"
